@@ -97,6 +97,9 @@ def gen_nested_bytes(rng, ser):
         lambda: {'k': values.gen_bytes(rng), 'l': [values.gen_bytes(rng), 1]},
         lambda: {'a': {'b': [values.gen_bytes(rng)]}, 'c': values.gen_json(rng, 2, True)},
         lambda: [[values.gen_bytes(rng)], {'x': values.gen_bytes(rng)}],
+        # many byte strings in one message: counts around the attachment-count digits (9, 10, 11, 12, 16 ...)
+        lambda: [bytes([i, 255 - i]) for i in range(rng.choice([9, 10, 11, 12, 16, 23]))],
+        lambda: {'parts': [{'n': i, 'blob': bytes([i])} for i in range(rng.choice([10, 11, 13]))], 'sum': b'\x00'},
     ])()
     r = rng.random()
     if r < 0.4:
